@@ -326,6 +326,7 @@ pub fn worker(ctx: &WorkerCtx) -> Report {
     if ctx.shard == 0 {
         environment_part(&mut rep);
     }
+    driver_sequences(ctx, &mut rep);
     rep.sample(json!({"histories": "all sequences over 12 programs (8 over a common prelude, 4 conflicting namesakes) up to the tier's length", "seeds": seeds.len(), "stages": STAGES}));
     rep
 }
@@ -519,4 +520,92 @@ fn tool_route_part(scc: &std::path::Path, base: &std::path::Path, rep: &mut Repo
             }
         }
     }
+}
+
+
+// ---------------------------------------------------------------------------------------------
+// The driver object: every sequence of queries against one `driver::Driver`
+// ---------------------------------------------------------------------------------------------
+
+const DRIVER_QUERIES: [&str; 7] = ["parsed", "checked", "compiled", "uniquified", "focused", "shrunk", "linearized"];
+
+fn driver_query(d: &mut driver::Driver, q: usize, path: &std::path::PathBuf) -> String {
+    let r = std::panic::catch_unwind(std::panic::AssertUnwindSafe(|| match q {
+        0 => d.parsed(path).map(|p| p.print_to_string(None)).map_err(|e| format!("{e:?}")),
+        1 => d.checked(path).map(|p| format!("{p:?}")).map_err(|e| format!("{e:?}")),
+        2 => d.compiled(path).map(|p| p.print_to_string(None)).map_err(|e| format!("{e:?}")),
+        3 => d.uniquified(path).map(|p| p.print_to_string(None)).map_err(|e| format!("{e:?}")),
+        4 => d.focused(path).map(|p| p.print_to_string(None)).map_err(|e| format!("{e:?}")),
+        5 => d.shrunk(path).map(|p| p.print_to_string(None)).map_err(|e| format!("{e:?}")),
+        _ => d.linearized(path).map(|p| p.print_to_string(None)).map_err(|e| format!("{e:?}")),
+    }));
+    match r {
+        Ok(Ok(t)) => t,
+        Ok(Err(e)) => format!("ERROR {e}"),
+        Err(_) => "PANIC".to_string(),
+    }
+}
+
+/// The session object of the compiler (`driver::Driver`) caches every intermediate result per
+/// path. All sequences of up to 3 (quick) / 4 (thorough) queries — 7 kinds of query x 2 source
+/// files, the files being conflicting namesakes — are run against one driver object each; the
+/// answer to every query must be the answer a fresh driver gives to that query alone (the reference
+/// model: no history).
+fn driver_sequences(ctx: &WorkerCtx, rep: &mut Report) {
+    let progs = history_programs();
+    let n = progs.len();
+    let dir = scratch_dir().join(format!("c17-driver-{}-{}", std::process::id(), ctx.shard));
+    let _ = std::fs::create_dir_all(&dir);
+    // two namesake programs (they declare different things under the same names) and a plain one
+    let files: Vec<std::path::PathBuf> = [n - 4, n - 3, 3].iter().enumerate().map(|(i, pi)| {
+        let f = dir.join(format!("q{i}.sc"));
+        std::fs::write(&f, &progs[*pi]).unwrap();
+        f
+    }).collect();
+    let nfiles = if ctx.tier.thorough() { 3 } else { 2 };
+    // reference: one query on a fresh driver
+    let mut reference: Vec<Vec<String>> = Vec::new();
+    for f in files.iter().take(nfiles) {
+        reference.push((0..DRIVER_QUERIES.len()).map(|q| driver_query(&mut driver::Driver::new(), q, f)).collect());
+    }
+    let alphabet = DRIVER_QUERIES.len() * nfiles;
+    let depth = if ctx.tier.thorough() { 4 } else { 3 };
+    let mut idx = 0u64;
+    for len in 1..=depth {
+        let total = alphabet.pow(len as u32);
+        for code in 0..total {
+            idx += 1;
+            if !ctx.mine(idx) {
+                continue;
+            }
+            let mut c = code;
+            let mut d = driver::Driver::new();
+            let mut seq = Vec::with_capacity(len);
+            rep.count("cases", 1);
+            rep.count("driver_query_sequences", 1);
+            rep.distinct.push(hash64(&("driver", len, code)));
+            let mut ok = true;
+            for _ in 0..len {
+                let (q, fi) = (c % DRIVER_QUERIES.len(), (c / DRIVER_QUERIES.len()) % nfiles);
+                c /= alphabet;
+                seq.push(format!("{}({})", DRIVER_QUERIES[q], fi));
+                let got = driver_query(&mut d, q, &files[fi]);
+                rep.count("transitions", 1);
+                if got != reference[fi][q] {
+                    ok = false;
+                    rep.outcomes.insert(format!("violation/driver/{}", DRIVER_QUERIES[q]));
+                    rep.violation(
+                        format!("driver-history/{}", DRIVER_QUERIES[q]),
+                        format!("one driver object, queries {:?}: the last answer differs from the answer of a fresh driver to the same query", seq),
+                        json!({"kind": "driver", "sequence": seq, "files": files.iter().take(nfiles).map(|f| std::fs::read_to_string(f).unwrap_or_default()).collect::<Vec<_>>()}),
+                    );
+                    break;
+                }
+            }
+            if ok {
+                rep.count("traces_validated_against_impl", 1);
+            }
+        }
+    }
+    let _ = std::fs::remove_dir_all(&dir);
 }
